@@ -65,6 +65,9 @@ theorem copySource_lim0 (o : Opts) (r : Root) (f : Bytes) : copySource (lim0 o) 
   unfold copySource
   rw [withPath_lim0, conGet_lim0]
 
+theorem copyFirst_lim0 (o : Opts) (r : Root) (f : Bytes) : copyFirst (lim0 o) r f = copyFirst o r f := by
+  unfold copyFirst; rw [copySource_lim0]
+
 theorem destWalk_lim0 (o : Opts) (r : Root) (p : Bytes) : destWalk (lim0 o) r p = destWalk o r p := by
   unfold destWalk; rw [withPath_lim0]
 
@@ -85,7 +88,7 @@ theorem copySizeOf_lim0 (o : Opts) (r : Root) (op : Op) : copySizeOf (lim0 o) r 
   cases op.frm with
   | none => rfl
   | some frm =>
-    simp only [copySource_lim0, destWalk_lim0, srcVal_lim0, lim0_esc]
+    simp only [copyFirst_lim0, destWalk_lim0, srcVal_lim0, lim0_esc]
 
 theorem opSize_lim0 (o : Opts) (r : Root) (op : Op) : opSize (lim0 o) r op = opSize o r op := by
   unfold opSize; rw [copySizeOf_lim0]
@@ -145,13 +148,13 @@ theorem opTest_lim0 (o : Opts) (r : Root) (op : Op) : opTest (lim0 o) r op = opT
 theorem opCopy_lim0_of_ok {o : Opts} {r : Root} {acc : Int} {op : Op} {x : Root × Int}
     (h : opCopy o r acc op = .ok x) : opCopy (lim0 o) r acc op = .ok x := by
   rw [opCopy_eq] at h ⊢
-  simp only [copySource_lim0, destWalk_lim0, copySrc_lim0, addWalk_lim0, lim0_esc]
+  simp only [copyFirst_lim0, destWalk_lim0, copySrc_lim0, addWalk_lim0, lim0_esc]
   cases hf : op.frm with
   | none => rw [hf] at h; cases h
   | some frm =>
     rw [hf] at h
     simp only at h ⊢
-    cases h1' : afterW r (copySource o r frm) with
+    cases h1' : afterW r (copyFirst o r frm) with
     | none => rw [h1'] at h; exact absurd h (failOf_ne_ok _ _)
     | some r1 =>
       rw [h1'] at h
